@@ -66,13 +66,22 @@ rl.on('line', (line) => {
   if (!line.trim()) return;
   const c = JSON.parse(line);
   const out = { id: c.id };
-  try { new vm.Script(c.text); out.v8 = true; } catch (e) { out.v8 = !(e instanceof SyntaxError); if (!out.v8) out.v8err = String(e.message).slice(0, 80); }
+  try { judge(c, out); } catch (e) { out.skip = String(e && e.message).slice(0, 80); }   // e.g. stack exhaustion on a very deep text
+  let s;
+  try { s = JSON.stringify(out); } catch (e) { s = JSON.stringify({ id: c.id, skip: 'unserialisable: ' + String(e && e.message).slice(0, 60) }); }
+  process.stdout.write(s + '\n');
+});
+
+function judge(c, out) {
+  try { new vm.Script(c.text); out.v8 = true; } catch (e) {
+    if (e instanceof RangeError) throw e;
+    out.v8 = !(e instanceof SyntaxError); if (!out.v8) out.v8err = String(e.message).slice(0, 80);
+  }
   if (acorn) {
     try {
       const ast = acorn.parse(c.text, { ecmaVersion: 2020, sourceType: 'script', allowReturnOutsideFunction: !!c.allowReturn });
       out.acorn = true;
       if (c.tree) out.tree = norm(ast);
-    } catch (e) { out.acorn = false; out.acornerr = String(e.message).slice(0, 80); }
+    } catch (e) { if (e instanceof RangeError) throw e; out.acorn = false; out.acornerr = String(e.message).slice(0, 80); }
   } else { out.acorn = null; }
-  process.stdout.write(JSON.stringify(out) + '\n');
-});
+}
